@@ -685,8 +685,7 @@ def _detect_case(draw):
             "dtype": draw(st.sampled_from(["f8", "f4"])), "bg": draw(_st_bg()), "fault": draw(_st_fault(nc)),
             "layout": draw(st.sampled_from(["C", "T", "T", "strided"])), "ro": draw(st.booleans()),
             "kw": draw(st.sampled_from(_DETECT_FORMS)),
-            # (Hypothesis draws the first element of a list about half of the time and the others evenly)
-            "reuse": draw(st.sampled_from(["none", "pollute", "none", "twice", "pollute"]))}
+            "reuse": draw(st.sampled_from(["none", "pollute", "none", "twice", "none", "pollute", "none"]))}
 
 
 @st.composite
@@ -706,13 +705,13 @@ def _file_case(draw):
     gen = draw(st.sampled_from(["3B2", "NP2.1"]))
     bd = draw(st.sampled_from([0.3, 0.2, 0.15, 0.15]))
     gap = 0.06
-    if draw(st.integers(0, 2)) == 0:
+    if draw(st.sampled_from([True, False])):
         # a recording shorter than n_batches x batch_duration: the evenly spaced batches overlap (down to a file barely longer
         # than one batch); the same faults are then present in the whole file. n_batches 10 with 0.3 s is the default call form.
         nb = draw(st.sampled_from([3, 5, 10]))
         if nb == 10:
             bd = 0.3
-        gap = -bd * draw(st.sampled_from([0.3, 0.6, 0.9, 0.97]))
+        gap = -bd * draw(st.sampled_from([0.6, 0.9, 0.3, 0.97, 0.75]))
         faults = [faults[0]] * nb
     return {"kind": "file", "gen": gen, "cbin": draw(st.sampled_from([False, False, True])), "nb": nb,
             "bd": bd, "gap": gap, "fs": draw(st.sampled_from([FS_AP, 29999.757983])),
